@@ -13,7 +13,8 @@ EXTENDS Codec, Json
 CONSTANTS
   StrMax,     \* all strings over {0, 9, .} up to this length
   KAll,       \* batch shapes: at most KAll dimensions differ from the canonical default
-  KSem,       \* ... and at most KSem of the "semantic" dimensions
+  KSem,       \* ... or at most KSem of the dimensions in SemDims
+  SemDims,    \* subset of AllDims
   BigMenu     \* BOOLEAN: larger amount menus
 
 SX == INSTANCE SequencesExt
@@ -180,7 +181,7 @@ AltSecond ==
 
 AllDims == {"bkeys", "ver", "ws", "ukind", "first", "second",
             "tkeys", "ikeys", "iaddr", "itype", "iamt", "trs", "conv"}
-SemDims == {"second", "tkeys", "iaddr", "itype", "iamt", "trs", "conv"}
+ASSUME SemDims \subseteq AllDims
 
 P(D, d, def, alt) == IF d \in D THEN alt ELSE {def}
 
@@ -219,7 +220,17 @@ Crafted ==
        base(MkTx(<<"input", "transfers", "conversion">>, DefIKeys, "A", "pUSD", Amt(<<1>>), <<>>, "PEG"), "short"),
        base(MkTx(<<"input", "transfers", "conversion">>, DefIKeys, "A", "pUSD", Amt(<<0>>), <<>>, "PEG"), "short") }
 
-BatchCases == (UNION { ShapesDev(D) : D \in DevSets }) \cup Crafted
+(* The sets ShapesDev(D) are pairwise disjoint (a shape determines the set of *)
+(* dimensions in which it differs from the default), so the cases are kept   *)
+(* as a concatenation of sequences: TLC's UNION is quadratic in the size of  *)
+(* its result.                                                               *)
+RECURSIVE Concat(_)
+Concat(ss) == IF ss = <<>> THEN <<>> ELSE SX!SetToSeq(ShapesDev(ss[1])) \o Concat(Tail(ss))
+
+BatchSeq == Concat(SX!SetToSeq(DevSets)) \o SX!SetToSeq(Crafted)
+AmtSeq   == SX!SetToSeq(AmtCases)
+NA == Len(AmtSeq)
+NB == Len(BatchSeq)
 
 -----------------------------------------------------------------------------
 (* export *)
@@ -231,13 +242,11 @@ AmtLine(i, t) ==
 BatchLine(i, s) == [id |-> i, shape |-> s, canonical |-> Canonical(s), must |-> MustAccept(s)]
 
 ExportAmt ==
-  LET seq == SX!SetToSeq(AmtCases)
-  IN /\ ndJsonSerialize("cases_amt.ndjson", [i \in 1..Len(seq) |-> AmtLine(i, seq[i])])
-     /\ PrintT(<<"CASES_AMT", Len(seq)>>)
+  /\ ndJsonSerialize("cases_amt.ndjson", [i \in 1..NA |-> AmtLine(i, AmtSeq[i])])
+  /\ PrintT(<<"CASES_AMT", NA>>)
 ExportBatch ==
-  LET seq == SX!SetToSeq(BatchCases)
-  IN /\ ndJsonSerialize("cases_batch.ndjson", [i \in 1..Len(seq) |-> BatchLine(i, seq[i])])
-     /\ PrintT(<<"CASES_BATCH", Len(seq)>>)
+  /\ ndJsonSerialize("cases_batch.ndjson", [i \in 1..NB |-> BatchLine(i, BatchSeq[i])])
+  /\ PrintT(<<"CASES_BATCH", NB>>)
 
 ASSUME ExportAmt
 ASSUME ExportBatch
@@ -245,11 +254,13 @@ ASSUME ExportBatch
 -----------------------------------------------------------------------------
 (* state graph: one state per case *)
 
-VARIABLE c
+VARIABLE idx
 
-Init == \/ \E t \in AmtCases   : c = [k |-> "amt", tok |-> t, shape |-> <<>>]
-        \/ \E s \in BatchCases : c = [k |-> "batch", tok |-> <<>>, shape |-> s]
-Next == UNCHANGED c
+c == IF idx <= NA THEN [k |-> "amt", tok |-> AmtSeq[idx], shape |-> <<>>]
+     ELSE [k |-> "batch", tok |-> <<>>, shape |-> BatchSeq[idx - NA]]
+
+Init == idx \in 1..(NA + NB)
+Next == UNCHANGED idx
 
 (* small values: cross-check the digit arithmetic with TLC's own integers  *)
 RECURSIVE ToInt(_)
